@@ -381,6 +381,9 @@ func (ix Index) DDL(style Style, table string) string {
 			where = " -- only some rows\n" + strings.TrimLeft(where, " ")
 		}
 		s += where + ix.Where
+		if ix.Note && style == StyleNative {
+			s += " -- and a remark before the statement ends\n;"
+		}
 	}
 	return s
 }
